@@ -1383,7 +1383,12 @@ def policy_probes(ctx, tk, ledger):
             if any(mn != ctx.spec['root']['name'] and mn not in led for mn in st.active_machines(ids)):
                 t = 'pb{' + ';'.join(idparts) + ';}'
                 nhalf += 1
-            out.append((tk[k - 1] if k else '', t))
+            host = ''
+            for h in reversed(tk[:k]):
+                if not h.startswith('pb{'):
+                    host = h
+                    break
+            out.append((host, t))
     return out, led, nhalf
 
 
